@@ -256,9 +256,7 @@ func ruleC15StaleSnapshot(p *Prog, r *Res) {
 			nDefs++
 			key := fmt.Sprintf("%s local %s := …%s…", f.Key(), d.v.Name(), d.names)
 			redef := func(n ast.Node) bool {
-				if n == d.node {
-					return false
-				}
+				// searches start behind the definition: meeting it again (in a loop) is a redefinition
 				switch s := n.(type) {
 				case *ast.AssignStmt:
 					for _, l := range s.Lhs {
